@@ -45,7 +45,7 @@ pub fn property() -> Property {
                 quick: 800,
                 thorough: 15_000,
                 single_shard: false, supplementary: false,
-                run: |cfg| run_part(cfg, (gen::raw_pos(60), 0..6u8, any::<u16>()), |(r, k, x)| rep_case(r, *k, *x), check_engine_rep),
+                run: |cfg| run_part(cfg, (gen::raw_pos(60), 0..10u8, any::<u16>()), |(r, k, x)| rep_case(r, *k, *x), check_engine_rep),
                 replay: |v| replay_case::<RepCase, _>(v, check_engine_rep),
             },
             Part {
@@ -226,6 +226,11 @@ pub struct RepCase {
     pub history: Vec<String>,
     pub searchmove: String,
     pub depth: u32,
+    /// an earlier game given to the same engine instance before this position (its history must not count)
+    #[serde(default)]
+    pub prior: Option<(String, Vec<String>)>,
+    #[serde(default)]
+    pub new_game_after_prior: bool,
 }
 
 fn shuffle_quad(p: &Pos, skip: u16) -> Option<[Mv; 4]> {
@@ -266,10 +271,35 @@ fn rep_case(r: &gen::RawPos, kind: u8, x: u16) -> RepCase {
     let mut p = gen::position(r, ClockDomain::Engine);
     p.ep = None;
     p.half = p.half.min(60);
-    let Some([a, b, a2, b2]) = shuffle_quad(&p, x) else {
-        return RepCase { fen: p.fen(), history: vec![], searchmove: String::new(), depth: 1 };
-    };
+    let none = |p: &Pos| RepCase { fen: p.fen(), history: vec![], searchmove: String::new(), depth: 1, prior: None, new_game_after_prior: false };
     let u = |m: Mv| m.uci();
+    // kinds 8, 9: the first occurrence is CREATED by a capture or pawn move inside the move list
+    if kind >= 8 {
+        for x0 in p.legal_moves().into_iter().filter(|&m| p.is_capture(m) || matches!(p.board[m.from as usize], Some((_, Kind::Pawn)))).filter(|m| m.promo.is_none()).skip((x % 3) as usize).take(6) {
+            let mut q = p.apply(x0);
+            q.ep = None; // (model only; the engine's e.p. square after a double step would differ from later occurrences)
+            if p.apply(x0).ep.is_some() {
+                continue;
+            }
+            if let Some([a, b, a2, b2]) = shuffle_quad(&q, x) {
+                let (hist, sm): (Vec<Mv>, Mv) = if kind == 8 { (vec![x0, a, b, a2, b2, a, b, a2], b2) } else { (vec![x0, a, b, a2], b2) };
+                return RepCase { fen: p.fen(), history: hist.into_iter().map(u).collect(), searchmove: u(sm), depth: 1, prior: None, new_game_after_prior: false };
+            }
+        }
+        return none(&p);
+    }
+    let Some([a, b, a2, b2]) = shuffle_quad(&p, x) else {
+        return none(&p);
+    };
+    // kinds 6, 7: an earlier game shuffled through the same position; then the position is given as a bare FEN
+    // whose clocks place it right behind that game: the old game's history must not be counted
+    if kind >= 6 {
+        let prior_moves: Vec<String> = [a, b, a2, b2, a, b, a2, b2].iter().map(|&m| u(m)).collect();
+        let mut t = p.clone();
+        t.half += 8;
+        t.full += 4;
+        return RepCase { fen: t.fen(), history: vec![], searchmove: u(a), depth: 1 + (x % 2) as u32, prior: Some((p.fen(), prior_moves)), new_game_after_prior: kind == 7 };
+    }
     let (history, searchmove, depth): (Vec<Mv>, Mv, u32) = match kind {
         // depth 1, the searched move completes the THIRD occurrence of the root-of-history position
         0 | 1 => (vec![a, b, a2, b2, a, b, a2], b2, 1),
@@ -280,7 +310,7 @@ fn rep_case(r: &gen::RawPos, kind: u8, x: u16) -> RepCase {
         // depth 2: only a second occurrence is reachable
         _ => (vec![a, b], a2, 2),
     };
-    RepCase { fen: p.fen(), history: history.into_iter().map(u).collect(), searchmove: u(searchmove), depth }
+    RepCase { fen: p.fen(), history: history.into_iter().map(u).collect(), searchmove: u(searchmove), depth, prior: None, new_game_after_prior: false }
 }
 
 fn contempt() -> i32 {
@@ -360,6 +390,13 @@ pub fn check_engine_rep(c: &RepCase, ctx: &mut Ctx) -> Result<(), String> {
         ordinary_differs = !expected.contains(&best_plain);
     }
     let mut s = Session::new();
+    if let Some((pf, pm)) = &c.prior {
+        run_search(&mut s, pf, pm, &GoSpec::depth(1))?;
+        if c.new_game_after_prior {
+            s.new_game();
+        }
+        ctx.class("earlier_game_on_the_same_instance");
+    }
     let spec = GoSpec { depth: Some(c.depth as u64), searchmoves: vec![c.searchmove.clone()], ..GoSpec::default() };
     let out = run_search(&mut s, &c.fen, &c.history, &spec)?;
     s.quit()?;
@@ -376,6 +413,9 @@ pub fn check_engine_rep(c: &RepCase, ctx: &mut Ctx) -> Result<(), String> {
         (_, true) => "depth2_third_occurrence_reachable",
         (_, false) => "depth2_no_third_occurrence",
     });
+    if c.history.first().map_or(false, |m| Mv::parse(m).map_or(false, |m| g.positions[0].is_capture(m) || matches!(g.positions[0].board[m.from as usize], Some((_, Kind::Pawn))))) {
+        ctx.class("first_occurrence_created_by_an_irreversible_move");
+    }
     if draw_involved && ordinary_differs {
         ctx.class("draw_value_differs_from_material_value");
         ctx.nontrivial((c.fen.clone(), c.history.clone(), c.searchmove.clone(), c.depth));
